@@ -44,7 +44,7 @@ func genC02Race(t *rapid.T) *Scenario {
 		// the newest revision is either still taking over when the teardown starts, or settled as well: then the teardown
 		// of a co-owner (which also strips the cache label) is followed by passes of an older, still active revision that
 		// no longer finds the object in its cache
-		if i < 2 || rapid.Bool().Draw(t, "settleNewest") {
+		if i < 2 || rapid.IntRange(0, 2).Draw(t, "settleNewest") == 0 {
 			sc.Steps = append(sc.Steps, Step{Op: "quiesce"})
 		}
 	}
@@ -79,7 +79,7 @@ func TestC02(t *testing.T) {
 	CheckOrReplay(t, st, func(data []byte) (any, error) {
 		return ReplayScenario(data, func(sc *Scenario) *Runner { r, _ := mk(sc); return r })
 	}, func(rt *rapid.T) {
-		if rapid.IntRange(0, 3).Draw(rt, "family") == 0 {
+		if rapid.IntRange(0, 2).Draw(rt, "family") == 0 {
 			sc := genC02Race(rt)
 			r, m := mk(sc)
 			err := r.Run()
